@@ -88,6 +88,22 @@ def run(rep, tier, pool, variants=("shipped",)):
             prev = got
             if len(samples) < 2:
                 samples.append({"pair": "xonsh.gram", "hashseed": seed, "methods": len(got), "differing": d[:3]})
+        # the same generation step run three times inside ONE interpreter (state kept by the generator between runs)
+        rep_out = [tmp / f"parser_inproc_{j}.py" for j in range(3)]
+        code = "import sys; from pathlib import Path; sys.path.insert(0, %r); from tasks import generator\n" % str(REPO) + "".join(f"generator.main(Path({str(o)!r}))\n" for o in rep_out)
+        pr = subprocess.run([PY, "-c", code], env=dict(os.environ, PYTHONPATH=str(REPO), PYTHONHASHSEED="0"), capture_output=True, text=True, timeout=300, cwd="/")
+        programs += 3
+        if pr.returncode != 0:
+            rep.violation(f"C16 repeated in-process generation fails: {short(pr.stderr[-200:], 150)}", {"property": "C16", "step": "tasks.generator.main() x3 in one interpreter", "stderr": pr.stderr[-2000:]})
+        else:
+            for j, o in enumerate(rep_out):
+                got = norm_methods(o)
+                d = diff_methods(got, shipped)
+                rep.case(("xonsh.gram", "in-process", j), True)
+                if d:
+                    rep.violation(f"C16 generation run #{j + 1} inside one interpreter differs from the shipped parser in {len(d)} method(s)/table(s): {d[:6]}",
+                                  {"property": "C16", "pair": "tasks/xonsh.gram -> peg_parser/parser.py", "history": f"tasks.generator.main() called {j + 1} time(s) in the same interpreter", "differing_methods": d[:50]})
+                    break
         prevm = None
         for i, seed in enumerate(seeds):
             out = tmp / f"meta_{i}.py"
